@@ -98,3 +98,17 @@ Print Assumptions pubkey_serialize_buffer_contract.
 (* non-vacuity: G is on the curve, its uncompressed encoding round-trips (instance of the theorem) *)
 Example G_roundtrip : eckey_pubkey_parse S (ser65 (G S)) = Some (G S).
 Proof. exact (pubkey_uncompressed_roundtrip (cgx S) (cgy S) secp_G_on_curve). Qed.
+
+(* Over code REGENERATED from the C source (tools/c2coq.py): the byte-string-to-field-element conversion with range check used by
+   every coordinate parser returns 1 exactly for values below p, and the limbs hold exactly the big-endian value - all 2^256 strings. *)
+From Coq Require Import ZArith.
+Require Import Kernel.Field5x52 Kernel.FieldSetB32 Gen.fe_impl_set_b32_limit.
+Local Open Scope Z_scope.
+Theorem fe_set_b32_limit_correct : forall a0 a1 a2 a3 a4 a5 a6 a7 a8 a9 a10 a11 a12 a13 a14 a15 a16 a17 a18 a19 a20 a21 a22 a23 a24 a25 a26 a27 a28 a29 a30 a31,
+  0 <= a0 < 256 -> 0 <= a1 < 256 -> 0 <= a2 < 256 -> 0 <= a3 < 256 -> 0 <= a4 < 256 -> 0 <= a5 < 256 -> 0 <= a6 < 256 -> 0 <= a7 < 256 -> 0 <= a8 < 256 -> 0 <= a9 < 256 -> 0 <= a10 < 256 -> 0 <= a11 < 256 -> 0 <= a12 < 256 -> 0 <= a13 < 256 -> 0 <= a14 < 256 -> 0 <= a15 < 256 -> 0 <= a16 < 256 -> 0 <= a17 < 256 -> 0 <= a18 < 256 -> 0 <= a19 < 256 -> 0 <= a20 < 256 -> 0 <= a21 < 256 -> 0 <= a22 < 256 -> 0 <= a23 < 256 -> 0 <= a24 < 256 -> 0 <= a25 < 256 -> 0 <= a26 < 256 -> 0 <= a27 < 256 -> 0 <= a28 < 256 -> 0 <= a29 < 256 -> 0 <= a30 < 256 -> 0 <= a31 < 256 ->
+  fe_impl_set_b32_limit_k a0 a1 a2 a3 a4 a5 a6 a7 a8 a9 a10 a11 a12 a13 a14 a15 a16 a17 a18 a19 a20 a21 a22 a23 a24 a25 a26 a27 a28 a29 a30 a31 (fun r0 r1 r2 r3 r4 ret =>
+    (0 <= r0 < 2^52 /\ 0 <= r1 < 2^52 /\ 0 <= r2 < 2^52 /\ 0 <= r3 < 2^52 /\ 0 <= r4 < 2^48) /\
+    val5 r0 r1 r2 r3 r4 = be32 a0 a1 a2 a3 a4 a5 a6 a7 a8 a9 a10 a11 a12 a13 a14 a15 a16 a17 a18 a19 a20 a21 a22 a23 a24 a25 a26 a27 a28 a29 a30 a31 /\
+    ret = (if be32 a0 a1 a2 a3 a4 a5 a6 a7 a8 a9 a10 a11 a12 a13 a14 a15 a16 a17 a18 a19 a20 a21 a22 a23 a24 a25 a26 a27 a28 a29 a30 a31 <? P256 then 1 else 0)).
+Proof. exact Kernel.FieldSetB32.fe_set_b32_limit_correct. Qed.
+Print Assumptions fe_set_b32_limit_correct.
